@@ -93,6 +93,15 @@ def absmat(m):
     return r
 
 
+def _maxmat(a, bound):
+    """elementwise max of an mp.matrix and a same-shaped nested list of floats"""
+    out = mp.matrix(a.rows, a.cols)
+    for i in range(a.rows):
+        for j in range(a.cols):
+            out[i, j] = max(a[i, j], mp.mpf(bound[i][j]))
+    return out
+
+
 def ref_predict(spec, point, P, names=None):
     """Textbook prediction.  P is an mp.matrix laid out by sorted state name.
     Returns (x' dict, P' mp.matrix, scale matrix (abs-value bound), G, V)."""
@@ -100,18 +109,23 @@ def ref_predict(spec, point, P, names=None):
         env = env_of(spec, point)
         st = sorted(spec["state"])
         ct = sorted(spec["control"])
-        G, _ = jac_matrix(spec, st, spec["trees"], st, env)
+        G, Sg = jac_matrix(spec, st, spec["trees"], st, env)
         n = len(st)
         Pn = G * P * G.T
-        scale = absmat(G) * absmat(P) * absmat(G).T
+        # tolerance scale: the cancellation-free bounds of the Jacobian entries (dscale), not their values — where an entry
+        # is small by cancellation (cos u ~ 0 at u ~ 1e6) its floating-point error is still eps*|u|*|u'|, and
+        # dP' = dG P G^T + G P dG^T inherits it (found by the thorough tier: rel. 3e-8 on a shrunk sin((a+9.81)**6))
+        aG = _maxmat(absmat(G), Sg)
+        scale = aG * absmat(P) * aG.T
         V = mp.matrix(n, len(ct))
         if ct:
-            V, _ = jac_matrix(spec, st, spec["trees"], ct, env)
+            V, Sv = jac_matrix(spec, st, spec["trees"], ct, env)
             Mn = mp.matrix(len(ct), len(ct))
             for i, c in enumerate(ct):
                 Mn[i, i] = mp.mpf(spec["process_noise"][c])
             Pn = Pn + V * Mn * V.T
-            scale = scale + absmat(V) * Mn * absmat(V).T
+            aV = _maxmat(absmat(V), Sv)
+            scale = scale + aV * Mn * aV.T
         x = {s: T.eval_mp(spec["trees"][s], env) for s in st}
         return x, Pn, scale, G, V
 
@@ -124,7 +138,7 @@ def ref_update(spec, key, state_point, P, z):
         st = sorted(spec["state"])
         rd = sorted(spec["sensors"][key])
         trees = spec["sensors"][key]
-        Hm, _ = jac_matrix(spec, rd, trees, st, env)
+        Hm, Sh = jac_matrix(spec, rd, trees, st, env)
         Q = mp.matrix(len(rd), len(rd))
         for i, r in enumerate(rd):
             Q[i, i] = mp.mpf(spec["sensor_noises"][key][r])
@@ -137,7 +151,7 @@ def ref_update(spec, key, state_point, P, z):
         xn = x + K * y
         Pn = P - K * Hm * P
         nis = (y.T * Sinv * y)[0, 0]
-        aH, aP, aK = absmat(Hm), absmat(P), absmat(K)
+        aH, aP, aK = _maxmat(absmat(Hm), Sh), absmat(P), absmat(K)  # H by its cancellation-free bound (see ref_predict)
         return {
             "x": xn, "P": Pn, "y": y, "S": S, "H": Hm, "K": K, "nis": nis, "hx": hx, "Sinv": Sinv,
             "S_scale": aH * aP * aH.T + Q,
